@@ -11,9 +11,9 @@
 From stdpp Require Import base option list numbers fin_maps nmap.
 From Verif.Base Require Import Bytes.
 From Verif.Codec Require Import Packets Decode Encode.
-From Verif.Gateway Require Import GwTypes GwStep GwWf GwWfDec Sound_C06.
+From Verif.Gateway Require Import GwTypes GwStep GwWf GwWfDec GwRun Sound_C06 Sound_C06r.
 From Verif.Client Require Import ClTypes ClStep Sound_Client Sound_C06c.
-From Verif.Checkers Require Import ChkCodec ChkGw ChkGw4 ChkCl ChkCl3.
+From Verif.Checkers Require Import ChkCodec ChkGw ChkGw2 ChkGw4 ChkGw6 ChkCl ChkCl3.
 Open Scope N_scope.
 
 (* The monitor mon6 (Checkers/ChkGw4.v) keeps the exchanges of both directions by direction AND
@@ -58,6 +58,36 @@ Theorem C06_gateway_only_interference_fails :
     forall c, In c (mon6_run cfg (init_state cfg) mon6_init evs) -> c < 10.
 Proof. exact C06_only_interference_fails. Qed.
 Print Assumptions C06_gateway_only_interference_fails.
+
+(* The REGISTER step of a broker exchange (Checkers/ChkGw6.v, monitor mon6r run next to mon6): mon6 opens a broker
+   exchange when its PUBLISH is written; an exchange on a topic without ID first sends REGISTER and waits for the
+   client's REGACK.  The book of mon6r holds every such REGISTER (message ID, topic ID, QoS, until when); at the
+   client's accepted REGACK for a live entry the PUBLISH under that topic ID (QoS >= 1: with that message ID) must
+   be written - whatever PUBACK / PUBREC / PUBCOMP of EARLIER exchanges with the same message ID arrived meanwhile
+   (those never remove an entry).  Codes: 5 when a client exchange with the same message ID STARTED during the
+   step (the shared store slot: the recorded defect), 15 otherwise.  In EVERY history only 5 occurs: *)
+Theorem C06_register_step_only_interference_fails :
+  forall cfg evs, wf_cfg cfg -> Forall wf_event evs ->
+    forall c, In c (mon6r_run cfg (init_state cfg) mon6_init mon6r_init evs) -> c < 10.
+Proof. exact Sound_C06r.C06_register_step_only_interference_fails. Qed.
+Print Assumptions C06_register_step_only_interference_fails.
+
+(* not vacuous: CONNECT, CONNACK, SUBSCRIBE a/#, SUBACK, broker PUBLISH QoS 1 mid 5 on a/x (REGISTER), a stale
+   rejecting PUBACK 5, the accepted REGACK - the book holds the entry, the PUBLISH is written, nothing is reported,
+   and without the PUBLISH the clause reports 15; with a client exchange of the same ID in between: 5 *)
+Theorem C06_register_step_examples :
+  (mon6r_run c06r_cfg (init_state c06r_cfg) mon6_init mon6r_init c06r_hist = [] /\
+   mon6r_book c06r_cfg (init_state c06r_cfg) mon6_init mon6r_init (removelast c06r_hist) =
+     [{| re_mid := 5; re_tid := 1; re_qos := 1; re_until := 3003; re_hit := false |}] /\
+   sn_pkts (obs_of_outs (last (fst (gw_run c06r_cfg (init_state c06r_cfg) c06r_hist)) [])) =
+     [Publish false 1 false TIT_REGISTERED 1 5 [1]] /\
+   snd (mon6r_step c06r_cfg (snd (gw_run c06r_cfg (init_state c06r_cfg) (removelast c06r_hist)))
+                   (EvSn (pack (Regack 1 5 0))) [] mon6_init
+                   {| r_book := mon6r_book c06r_cfg (init_state c06r_cfg) mon6_init mon6r_init (removelast c06r_hist) |}) = [15]) /\
+  (mon6r_run c06r_cfg (init_state c06r_cfg) mon6_init mon6r_init c06r_hist_interf = [5] /\
+   sn_pkts (obs_of_outs (last (fst (gw_run c06r_cfg (init_state c06r_cfg) c06r_hist_interf)) [])) = []).
+Proof. exact (conj C06_register_step_nonvacuous C06_register_step_interference). Qed.
+Print Assumptions C06_register_step_examples.
 
 Definition C06_client_statement : Prop :=
   forall cfg evs,
